@@ -13,9 +13,10 @@ use proptest::prelude::*;
 use serde::{Deserialize, Serialize};
 use serde_json::json;
 use std::collections::BTreeMap;
-use std::sync::Arc;
+use std::sync::{Arc, Mutex};
 use vrp_core::models::Problem as CoreProblem;
 use vrp_pragmatic::checker::CheckerContext;
+use vrp_pragmatic::format::Location as ApiLocation;
 use vrp_pragmatic::format::problem as api;
 use vrp_pragmatic::format::solution as sol;
 
@@ -51,9 +52,131 @@ fn normalise(msg: &str) -> String {
         }
         prev = c;
     }
-    let out = out.split(':').next().unwrap_or("").split(", expected").next().unwrap_or("");
+    let out = out.split(':').next().unwrap_or("").split(", expected").next().unwrap_or("").split(" at stop").next().unwrap_or("");
     let out: String = out.chars().map(|c| if c.is_ascii_digit() { '#' } else { c }).collect();
+    let out = out.replace("##", "#").replace("##", "#");
     out.split_whitespace().collect::<Vec<_>>().join(" ").chars().take(70).collect()
+}
+
+/// Development aid (VERIF_C12_DUMP=1): the smallest document seen per failing signature is written as a
+/// `checker_doc` replay file to $VERIF_ROOT/c12_minimal (corpus candidates for known findings).
+static MINIMAL: Mutex<BTreeMap<String, String>> = Mutex::new(BTreeMap::new());
+
+fn keep_minimal(sig: &str, expect: &str, p: &api::Problem, m: &[api::Matrix], s: &sol::Solution) {
+    if std::env::var_os("VERIF_C12_DUMP").is_some() {
+        let case = json!({"property": PROPERTY, "prop": "checker_doc", "repeats": 1, "signature": sig, "case": {"problem": p, "matrices": m, "solution": s, "expect": expect}}).to_string();
+        let mut kept = MINIMAL.lock().unwrap();
+        if kept.get(sig).is_none_or(|old| case.len() < old.len()) {
+            kept.insert(sig.to_string(), case);
+        }
+    }
+}
+
+fn dump_minimal(_: &RunCtx) -> Vec<Found> {
+    let dir = verif_root().join("c12_minimal");
+    for (k, (sig, case)) in MINIMAL.lock().unwrap().iter().enumerate() {
+        let _ = std::fs::create_dir_all(&dir);
+        let name: String = sig.chars().map(|c| if c.is_ascii_alphanumeric() { c } else { '-' }).collect();
+        let _ = std::fs::write(dir.join(format!("{k:02}-{name}.json")), case);
+    }
+    vec![]
+}
+
+/// Optional breaks of the shift of every tour: (window - offsets counted from the tour's departure -, policy is
+/// skip-if-arrival-before-end, assigned, violations listed for the vehicle shift,
+/// (first stop departure, last stop arrival, last stop departure)).
+fn window_breaks<'a>(p: &api::Problem, s: &sol::Solution, tours: impl Iterator<Item = &'a sol::Tour>) -> Vec<((i64, i64), bool, bool, usize, (i64, i64, i64))> {
+    let time = |x: &String| parse_time(x).unwrap_or(0);
+    let mut out = vec![];
+    for t in tours {
+        let at = (t.stops.first().map_or(0, |st| time(&st.schedule().departure)), t.stops.last().map_or(0, |st| time(&st.schedule().arrival)), t.stops.last().map_or(0, |st| time(&st.schedule().departure)));
+        let origin = t.stops.first().and_then(|st| st.activities().first()).and_then(|a| a.time.as_ref()).map_or(at.0, |i| time(&i.end));
+        let shift = p.fleet.vehicles.iter().find(|v| v.vehicle_ids.contains(&t.vehicle_id)).and_then(|v| v.shifts.get(t.shift_index));
+        let reported = s.violations.iter().flatten().filter(|v| matches!(v, sol::Violation::Break { vehicle_id, shift_index } if *vehicle_id == t.vehicle_id && *shift_index == t.shift_index)).count();
+        for b in shift.into_iter().flat_map(|sh| sh.breaks.iter().flatten()) {
+            if let api::VehicleBreak::Optional { time: when, places, policy } = b {
+                let window = match when {
+                    api::VehicleOptionalBreakTime::TimeWindow(w) => (time(&w[0]), time(&w[1])),
+                    api::VehicleOptionalBreakTime::TimeOffset(o) => (origin + o[0] as i64, origin + o[1] as i64),
+                };
+                let assigned = t.stops.iter().flat_map(|st| st.activities().iter()).any(|a| a.activity_type == "break" && places.iter().any(|pl| pl.tag == a.job_tag));
+                out.push((window, matches!(policy, Some(api::VehicleOptionalBreakPolicy::SkipIfArrivalBeforeEnd)), assigned, reported, at));
+            }
+        }
+    }
+    out
+}
+
+/// Defects of the solver's own break reporting (documentation: a break that cannot be assigned is returned
+/// in `violations`): such an output is not a valid solution, so the positive oracle does not apply to it.
+fn break_reporting_defect(p: &api::Problem, s: &sol::Solution) -> Option<&'static str> {
+    let breaks = window_breaks(p, s, s.tours.iter());
+    if breaks.iter().any(|(_, _, assigned, reported, _)| *reported > 1 || (*assigned && *reported > 0)) {
+        // pgen defines at most one break per shift
+        Some("break_violation_listed_too_often")
+    } else if breaks.iter().any(|((from, to), before_end, assigned, reported, (departure, arrival, _))| !assigned && *reported == 0 && if *before_end { arrival > to } else { from < arrival && departure <= to }) {
+        Some("due_break_neither_assigned_nor_reported")
+    } else {
+        None
+    }
+}
+
+/// Names the circumstance known to trigger a false rejection, so that a known-finding signature
+/// does not hide other causes behind the same error text. Empty when no known circumstance applies.
+fn context(msg: &str, p: &api::Problem, s: &sol::Solution) -> &'static str {
+    let time = |x: &String| parse_time(x).unwrap_or(0);
+    let tasks = |j: &api::Job| [&j.pickups, &j.deliveries, &j.replacements, &j.services].into_iter().flatten().flatten().cloned().collect::<Vec<api::JobTask>>();
+    // tours of the vehicle named in the message (all tours when it names none)
+    let tours = || s.tours.iter().filter(|t| !s.tours.iter().any(|x| msg.contains(&format!("'{}'", x.vehicle_id))) || msg.contains(&format!("'{}'", t.vehicle_id)));
+    let acts = || s.tours.iter().flat_map(|t| t.stops.iter().flat_map(|st| st.activities().iter().map(move |a| (st, a))));
+    let job_at_departure = || tours().any(|t| t.stops.first().is_some_and(|st| st.activities().iter().any(is_customer)));
+    let reload_shares_stop = || tours().flat_map(|t| t.stops.iter()).any(|st| st.activities().len() > 1 && st.activities().iter().any(|a| a.activity_type == "reload"));
+    let shared_location = || p.plan.jobs.iter().flat_map(tasks).any(|t| t.places.iter().enumerate().any(|(i, a)| t.places[..i].iter().any(|b| b.location == a.location)));
+    let spans_windows = || {
+        acts().filter(|(_, a)| is_customer(a)).any(|(st, a)| {
+            let (from, to) = a.time.as_ref().map_or((time(&st.schedule().arrival), time(&st.schedule().departure)), |t| (time(&t.start), time(&t.end)));
+            let place = p.plan.jobs.iter().filter(|j| j.id == a.job_id).flat_map(tasks).flat_map(|t| t.places).find(|pl| pl.tag == a.job_tag);
+            place.and_then(|pl| pl.times).is_some_and(|w| w.iter().filter(|w| time(&w[0]) <= to && from <= time(&w[1])).count() >= 2)
+        })
+    };
+    let break_inside_stop = || tours().flat_map(|t| t.stops.iter()).any(|st| st.activities().iter().enumerate().any(|(k, a)| a.activity_type == "break" && k >= 1 && k + 1 < st.activities().len()));
+    // the checker resolves the shift of a tour by time overlap: an earlier shift whose range overlaps the tour wins
+    let shift_by_time = || {
+        tours().any(|t| {
+            let (from, to) = (t.stops.first().map_or(0, |st| time(&st.schedule().arrival)), t.stops.last().map_or(0, |st| time(&st.schedule().arrival)));
+            let shifts = p.fleet.vehicles.iter().find(|v| v.vehicle_ids.contains(&t.vehicle_id)).map(|v| v.shifts.clone()).unwrap_or_default();
+            shifts.iter().position(|sh| time(&sh.start.earliest) <= to && from <= sh.end.as_ref().map_or(i64::MAX, |e| time(&e.latest))) != Some(t.shift_index)
+        })
+    };
+    let window_breaks = || window_breaks(p, s, tours()).into_iter();
+    // the checker takes the arrival at the last stop as the end of the tour although the tour goes on until that stop's departure
+    let break_at_last_stop = || window_breaks().any(|((from, to), _, _, _, (_, arrival, end))| (arrival <= from && from <= end) || (arrival <= to && to <= end));
+    // skip-if-no-intersection: the checker only compares the window start with the tour end
+    let break_before_departure = || window_breaks().any(|((_, to), _, _, _, (departure, _, _))| to < departure);
+    // offset breaks are measured from the departure of the first stop, which is later than the tour start when jobs are served there
+    let offset_break_busy_start = || {
+        tours().any(|t| {
+            let shift = p.fleet.vehicles.iter().find(|v| v.vehicle_ids.contains(&t.vehicle_id)).and_then(|v| v.shifts.get(t.shift_index));
+            t.stops.first().is_some_and(|st| st.activities().len() > 1) && shift.iter().flat_map(|sh| sh.breaks.iter().flatten()).any(|b| matches!(b, api::VehicleBreak::Optional { time: api::VehicleOptionalBreakTime::TimeOffset(_), .. }))
+        })
+    };
+    let rules: [(&str, &dyn Fn() -> bool, &'static str); 14] = [
+        ("cannot find break", &offset_break_busy_start, " [offset break, activities at the departure stop]"),
+        ("amount of breaks does not match", &offset_break_busy_start, " [offset break, activities at the departure stop]"),
+        ("cannot find break", &shift_by_time, " [shift of the tour resolved by time overlap]"),
+        ("cannot find reload", &shift_by_time, " [shift of the tour resolved by time overlap]"),
+        ("tour size limit", &shift_by_time, " [shift of the tour resolved by time overlap]"),
+        ("load mismatch", &job_at_departure, " [job at departure stop]"),
+        ("load mismatch", &reload_shares_stop, " [reload shares a stop]"),
+        ("cannot match activities to jobs", &shared_location, " [places of a task share a location]"),
+        ("cannot match activities to jobs", &spans_windows, " [service interval touches two time windows]"),
+        ("cannot match all breaks", &break_inside_stop, " [break between two activities of a stop]"),
+        ("amount of breaks does not match", &break_at_last_stop, " [break window boundary inside the last stop]"),
+        ("amount of breaks does not match", &break_before_departure, " [break window ends before departure]"),
+        ("break location", &shift_by_time, " [shift of the tour resolved by time overlap]"),
+        ("amount of breaks does not match", &shift_by_time, " [shift of the tour resolved by time overlap]"),
+    ];
+    rules.iter().find(|(prefix, holds, _)| msg.starts_with(prefix) && holds()).map_or("", |r| r.2)
 }
 
 fn is_customer(a: &sol::Activity) -> bool {
@@ -69,10 +192,6 @@ fn pt(s: &mut sol::Solution, ti: usize, si: usize) -> &mut sol::PointStop {
         sol::Stop::Point(p) => p,
         _ => panic!("harness: transit stops are not generated"),
     }
-}
-
-fn doc(p: &api::Problem, m: &[api::Matrix], s: &sol::Solution) -> String {
-    json!({"problem": p, "matrices": m, "solution": s}).to_string()
 }
 
 fn rule_in(rule: &str, family: &[&str]) -> bool {
@@ -130,6 +249,17 @@ impl Env<'_> {
         }
     }
 
+    /// A failed expectation: open known findings are counted and skipped (the campaign continues behind them).
+    fn flag(&self, sig: String, known_class: String, expect: &str, p: &api::Problem, s: &sol::Solution, message: String) -> Check {
+        keep_minimal(&sig, expect, p, self.matrices, s);
+        if known_open(PROPERTY, &sig) {
+            self.stats.known_hit(&sig);
+            self.stats.class(&known_class);
+            return Ok(());
+        }
+        Err(Failure::new(sig, format!("{message}\n--- document:\n{}", json!({"problem": p, "matrices": self.matrices, "solution": s}))))
+    }
+
     /// Positive oracle on (P', S'): asserted only when R has no finding at all.
     fn accept(&self, name: &str, p2: Option<&api::Problem>, s: &sol::Solution) -> Result<bool, Failure> {
         let st = self.stats;
@@ -149,15 +279,10 @@ impl Env<'_> {
                 Ok(true)
             }
             Ok(Err(errs)) => {
-                let sig = format!("checker:rejects-valid:{}", normalise(&errs[0]));
-                if known_open(PROPERTY, &sig) {
-                    st.known_hit(&sig);
-                    st.class(&format!("pos.{name}.rejected_known"));
-                    return Ok(false);
-                }
-                Err(Failure::new(sig, format!("[{name}] R has no finding, checker rejects with: {errs:?}\n--- document:\n{}", doc(p, self.matrices, s))))
+                let sig = format!("checker:rejects-valid:{}{}", normalise(&errs[0]), context(&errs[0], p, s));
+                self.flag(sig, format!("pos.{name}.rejected_known"), "ok", p, s, format!("[{name}] R has no finding, checker rejects with: {errs:?}")).map(|_| false)
             }
-            Err(panic) => Err(Failure::new(format!("checker:panic:{}", panic_site(&panic)), format!("[{name}] checker panicked on a valid solution: {panic}\n--- document:\n{}", doc(p, self.matrices, s)))),
+            Err(panic) => self.flag(format!("checker:panic:{}", panic_site(&panic)), format!("pos.{name}.panicked_known"), "ok", p, s, format!("[{name}] checker panicked on a valid solution: {panic}")).map(|_| false),
         }
     }
 
@@ -177,6 +302,11 @@ impl Env<'_> {
                 }
             }
         }
+        if name.contains("distance") && s.tours.iter().flat_map(|t| t.stops.iter()).all(|st| st.as_point().is_none_or(|x| x.distance == 0)) {
+            // documented workaround of the checker (hre format): no distance check at all when every stop distance is 0
+            st.class(&format!("unspecified.{name}.all_stop_distances_zero"));
+            return Ok(());
+        }
         st.class(&format!("mut.{name}.certified"));
         st.eval();
         if far {
@@ -186,19 +316,16 @@ impl Env<'_> {
         match run_checker(&core, p, self.matrices, s) {
             Ok(Err(errs)) => {
                 st.class(&format!("mut.{name}.rejected"));
-                st.class(&format!("mut.{name}.rejected_as.{}", normalise(&errs[0])));
+                // every reported rule (the first one alone would hide whether the intended rule fires at all)
+                let mut rules = errs.iter().map(|e| normalise(e)).collect::<Vec<_>>();
+                rules.sort();
+                rules.dedup();
+                rules.iter().for_each(|r| st.class(&format!("mut.{name}.rejected_by.{r}")));
                 Ok(())
             }
-            Ok(Ok(())) => {
-                let sig = format!("checker:accepts-breach:{name}");
-                if known_open(PROPERTY, &sig) {
-                    st.known_hit(&sig);
-                    st.class(&format!("mut.{name}.accepted_known"));
-                    return Ok(());
-                }
-                Err(Failure::new(sig, format!("mutation {name} at {site} is a genuine breach ({why}) but check() returned Ok\n--- document:\n{}", doc(p, self.matrices, s))))
-            }
-            Err(panic) => Err(Failure::new(format!("checker:panic:{}", panic_site(&panic)), format!("mutation {name} at {site}: checker panicked: {panic}\n--- document:\n{}", doc(p, self.matrices, s)))),
+            Ok(Ok(())) => self.flag(format!("checker:accepts-breach:{name}"), format!("mut.{name}.accepted_known"), name, p, s, format!("mutation {name} at {site} is a genuine breach ({why}) but check() returned Ok")),
+            // neither Ok nor Err: a crash of the checker on a well-formed document
+            Err(panic) => self.flag(format!("checker:panic:{}", panic_site(&panic)), format!("mut.{name}.panicked_known"), name, p, s, format!("mutation {name} at {site}: checker panicked: {panic}")),
         }
     }
 
@@ -239,6 +366,8 @@ impl Env<'_> {
             let vt = self.vehicle_index(tour).map(|i| &self.problem.fleet.vehicles[i]);
             for si in 0..tour.stops.len() {
                 let (far, first, site) = (ti > 0 || si >= 2, si == 0, format!("tour {ti} stop {si}"));
+                // a tour without any leg (everything happens at the start location of an open shift) is a site class of its own
+                let lone = |name: &str| if tour.stops.len() == 1 { format!("single-stop-tour.{name}") } else { name.to_string() };
                 let width = tour.stops[si].load().len();
                 let d = (ti + si) % width.max(1);
                 let with_load = |f: &dyn Fn(&mut i32)| {
@@ -248,10 +377,10 @@ impl Env<'_> {
                     f(&mut load[d]);
                     s
                 };
-                self.breach("load.plus1", &site, far, None, &with_load(&|l| *l += 1), Some(&["stop-load"]))?;
-                self.breach("load.minus1", &site, far, None, &with_load(&|l| *l -= 1), Some(&["stop-load"]))?;
+                self.breach(&lone("load.plus1"), &site, far, None, &with_load(&|l| *l += 1), Some(&["stop-load"]))?;
+                self.breach(&lone("load.minus1"), &site, far, None, &with_load(&|l| *l -= 1), Some(&["stop-load"]))?;
                 if let Some(cap) = vt.and_then(|v| v.capacity.get(d).copied()) {
-                    self.breach("load.above-capacity", &site, far, None, &with_load(&|l| *l = cap + 1), Some(&["stop-load"]))?;
+                    self.breach(&lone("load.above-capacity"), &site, far, None, &with_load(&|l| *l = cap + 1), Some(&["stop-load"]))?;
                 }
                 for (sign, later) in [(1, true), (-1, false)] {
                     let dv = sign * delta;
@@ -259,18 +388,18 @@ impl Env<'_> {
                     let t = &mut pt(&mut s, ti, si).time;
                     t.arrival = shifted(&t.arrival, dv);
                     let name = if first { "arrival.first-stop" } else if later { "arrival.later" } else { "arrival.earlier" };
-                    self.breach(name, &site, far, None, &s, Some(&["stop-arrival"]))?;
+                    self.breach(&lone(name), &site, far, None, &s, Some(&["stop-arrival"]))?;
 
                     let mut s = base.clone();
                     let t = &mut pt(&mut s, ti, si).time;
                     t.departure = shifted(&t.departure, dv);
                     let name = if first { "departure.first-stop" } else if later { "departure.later" } else { "departure.earlier" };
-                    self.breach(name, &site, far, None, &s, Some(if first { &["stop-departure", "stop-arrival"] } else { &["stop-departure"] }))?;
+                    self.breach(&lone(name), &site, far, None, &s, Some(if first { &["stop-departure", "stop-arrival"] } else { &["stop-departure"] }))?;
 
                     let mut s = base.clone();
                     pt(&mut s, ti, si).distance += dv;
                     let name = if first { "distance.first-stop" } else if later { "distance.more" } else { "distance.less" };
-                    self.breach(name, &site, far, None, &s, Some(&["stop-distance"]))?;
+                    self.breach(&lone(name), &site, far, None, &s, Some(&["stop-distance"]))?;
                 }
             }
         }
@@ -360,20 +489,13 @@ impl Env<'_> {
 
     fn tour_mutations(&self, delta: i64) -> Check {
         let base = self.base;
-        let zero_distances = base.tours.iter().flat_map(|t| t.stops.iter()).all(|s| s.as_point().is_none_or(|p| p.distance == 0));
-        if zero_distances {
-            // documented workaround of the checker (hre format): no distance check at all when every stop distance is 0
-            self.stats.class("unspecified.all_stop_distances_zero");
-        }
         for sign in [1i64, -1] {
             let mut s = base.clone();
             s.statistic.duration += sign;
             self.breach("stat.overall-duration", "solution", false, None, &s, Some(&["overall-sum"]))?;
-            if !zero_distances {
-                let mut s = base.clone();
-                s.statistic.distance += sign * delta;
-                self.breach("stat.overall-distance", "solution", false, None, &s, Some(&["overall-sum"]))?;
-            }
+            let mut s = base.clone();
+            s.statistic.distance += sign * delta;
+            self.breach("stat.overall-distance", "solution", false, None, &s, Some(&["overall-sum"]))?;
         }
         for (ti, tour) in base.tours.iter().enumerate() {
             let (far, site) = (ti > 0, format!("tour {ti}"));
@@ -387,12 +509,10 @@ impl Env<'_> {
                 s.tours[ti].statistic.duration += dv;
                 s.statistic.duration += dv;
                 self.breach("stat.tour-duration", &site, far, None, &s, Some(&["statistic-duration"]))?;
-                if !zero_distances {
-                    let mut s = base.clone();
-                    s.tours[ti].statistic.distance += dv;
-                    s.statistic.distance += dv;
-                    self.breach("stat.tour-distance", &site, far, None, &s, Some(&["statistic-distance"]))?;
-                }
+                let mut s = base.clone();
+                s.tours[ti].statistic.distance += dv;
+                s.statistic.distance += dv;
+                self.breach("stat.tour-distance", &site, far, None, &s, Some(&["statistic-distance"]))?;
                 let mut s = base.clone();
                 s.tours[ti].statistic.times.driving += dv;
                 s.statistic.times.driving += dv;
@@ -457,7 +577,8 @@ impl Env<'_> {
         if let Some(d) = (0..dims).max_by_key(|d| peak(*d)).filter(|d| peak(*d) >= 1) {
             let mut p = self.problem.clone();
             p.fleet.vehicles[vi].capacity[d] = peak(d) - 1;
-            self.breach("capacity.lowered", &format!("tour {ti} dimension {d}"), far, Some(&p), self.base, Some(&["capacity"]))?;
+            let name = if tour.stops.len() == 1 { "single-stop-tour.capacity.lowered" } else { "capacity.lowered" };
+            self.breach(name, &format!("tour {ti} dimension {d}"), far, Some(&p), self.base, Some(&["capacity"]))?;
         }
         Ok(())
     }
@@ -475,6 +596,12 @@ impl Env<'_> {
                     },
                     _ => None,
                 });
+                // misplaced in space: the activity names another location than the one its break defines
+                if let (Some(ApiLocation::Reference { index }), true) = (a.location.as_ref(), stop.activities().len() > 1) {
+                    let mut s = self.base.clone();
+                    pt(&mut s, ti, si).activities[ai].location = Some(ApiLocation::Reference { index: (index + 1) % self.matrices[0].distances.len().isqrt().max(1) });
+                    self.breach("break.wrong-location", &format!("tour {ti} stop {si} activity {ai}"), far || si >= 2, None, &s, Some(&["break-location"]))?;
+                }
                 let (start, end) = a.time.as_ref().map_or((&stop.schedule().arrival, &stop.schedule().departure), |t| (&t.start, &t.end));
                 let (Some((ws, we)), Some(start), Some(end)) = (window, parse_time(start), parse_time(end)) else {
                     self.stats.class("mut.break.window_not_resolved");
@@ -541,6 +668,12 @@ impl Env<'_> {
                     }
                 }
             }
+            for w in seq.windows(3) {
+                // b is served between a and c: allowed by a sequence relation, forbidden by a strict one
+                let ((ka, a), (_, b), (kc, c)) = (w[0], w[1], w[2]);
+                self.accept("rel.sequence-with-job-between", Some(&with(Sequence, v, sh, &[a, c])), base)?;
+                self.breach("rel.strict-gap", &format!("jobs {a},{c} around {b} at positions {ka}..{kc} of tour {ti}"), true, Some(&with(Strict, v, sh, &[a, c])), base, None)?;
+            }
             for w in seq.windows(2) {
                 let ((ka, a), (kb, b)) = (w[0], w[1]);
                 let site = format!("jobs {a},{b} at positions {ka},{kb} of tour {ti}");
@@ -549,9 +682,12 @@ impl Env<'_> {
                 self.breach("rel.strict-reversed", &site, far, Some(&with(Strict, v, sh, &[b, a])), base, None)?;
                 if kb == ka + 1 {
                     self.accept("rel.strict", Some(&with(Strict, v, sh, &[a, b])), base)?;
-                } else {
-                    // something is served between a and b: strict forbids it, sequence allows it
+                } else if tour.stops.iter().flat_map(|s| s.activities().iter()).skip(ka + 1).take(kb - ka - 1).any(is_customer) {
+                    // another job is served between a and b: strict forbids it
                     self.breach("rel.strict-gap", &site, far, Some(&with(Strict, v, sh, &[a, b])), base, None)?;
+                } else {
+                    // only a break / reload in between: the documentation speaks of jobs only
+                    self.stats.class("unspecified.rel.strict-with-marker-between");
                 }
             }
         }
@@ -570,10 +706,20 @@ impl Prop for CheckerProp {
         if self.relations { "checker_relations" } else { "checker_breaches" }
     }
     fn strategy(&self, tier: Tier) -> BoxedStrategy<CheckerCase> {
-        (problem_spec(tier.pick(10, 16)), config_spec(30), prop_oneof![3 => Just(2u16), 1 => 3u16..=240]).prop_map(|(spec, config, delta)| CheckerCase { spec, config, delta }).boxed()
+        let relations = self.relations;
+        (problem_spec(tier.pick(10, 16)), config_spec(30), prop_oneof![3 => Just(2u16), 1 => 3u16..=240])
+            .prop_map(move |(mut spec, config, delta)| {
+                if relations {
+                    // relations support only jobs with one place and at most one time window (E1203): make them frequent
+                    spec.features &= !F_MULTI;
+                    spec.jobs.iter_mut().flat_map(|j| j.places.iter_mut().flatten()).for_each(|p| p.windows.truncate(1));
+                }
+                CheckerCase { spec, config, delta }
+            })
+            .boxed()
     }
     fn cases(&self, tier: Tier) -> u32 {
-        if self.relations { tier.pick(320, 16_000) } else { tier.pick(640, 32_000) }
+        if self.relations { tier.pick(600, 30_000) } else { tier.pick(1_200, 60_000) }
     }
     fn shards(&self, _tier: Tier) -> u32 {
         16
@@ -596,6 +742,10 @@ impl Prop for CheckerProp {
         let verdict = refmodel::evaluate(problem, matrices, &solution, env.tol);
         let has = |f: &str| verdict.facts.contains(f);
         let rich = has("reload_assigned") || has("break_assigned") || has("multi_task_assigned");
+        if let Some(defect) = break_reporting_defect(problem, &solution) {
+            stats.class(&format!("pos.solver-output.invalid.{defect}"));
+            return Ok(());
+        }
         let accepted = env.accept("solver-output", None, &solution)?;
         if verdict.findings.is_empty() {
             for f in ["reload_assigned", "break_assigned", "multi_task_assigned", "multi_tour", "has_unassigned", "waiting", "scaled_profile", "open_end_tour", "shared_resource_used", "multi_window_assigned", "multi_place_assigned", "group_assigned"] {
@@ -654,6 +804,11 @@ impl Prop for CheckerDocProp {
         let core = read_core(&case.problem, &case.matrices).map_err(|e| Failure::new("harness:corpus-invalid", format!("corpus problem rejected: {e}")))?;
         stats.eval();
         stats.class("corpus_documents_checked");
+        let verdict = refmodel::evaluate(&case.problem, &case.matrices, &case.solution, tolerance(&case.problem));
+        if case.expect == "ok" {
+            // a corpus document that claims to be valid must be accepted by R
+            ensure!(verdict.findings.is_empty(), "harness:corpus-not-valid", "R reports {:?}", verdict.findings.iter().map(|f| format!("[{}] {}", f.rule, f.detail)).collect::<Vec<_>>());
+        }
         match (run_checker(&core, &case.problem, &case.matrices, &case.solution), case.expect.as_str()) {
             (Err(panic), _) => Err(Failure::new(format!("checker:panic:{}", panic_site(&panic)), format!("checker panicked: {panic}"))),
             (Ok(Ok(())), "ok") => Ok(()),
@@ -668,10 +823,29 @@ pub fn property(_tier: Tier) -> PropertyDef {
     PropertyDef {
         id: PROPERTY,
         level: "exploration",
-        rule: "stub",
-        assumptions: vec![],
+        rule: "proptest: (P,S) pairs - P = generated valid pragmatic problem with matrices (pgen: 1-10 jobs quick / 16 thorough, all task kinds, multi-place, windows, 1-2 dimensions, groups, skills, 1-3 vehicle types x 1-3 ids x 1-2 shifts, limits, optional breaks in window/offset form, reloads, shared resource), S = output of vrp_cli::get_solution_serialized under a generated config (<=30 generations, all population/hyper kinds); checker invoked as vrp-cli does (core problem re-read from the same document, CheckerContext::new(..).check()). POSITIVE (sub-checks checker_breaches and checker_relations): when the independent reference model R has no finding at all on (P,S) - and the solver's own break bookkeeping is consistent - check() must be Ok; the same for problem variants the solution still satisfies: limit lowered to exactly the used tourSize / distance / duration, and any / sequence / strict relations read off the tours (incl. a sequence with a job served in between). NEGATIVE checker_breaches: every single-breach mutant at EVERY site of an accepted R-clean S: per stop load +1 / -1 / capacity+1, arrival / departure / cumulative distance shifted by +-delta (delta=2 in 3 of 4 cases, else 3..240); per customer activity unknown job id, duplicated activity, task moved to the next tour; per assigned job listed also as unassigned, dropped from its tour, copied into every other tour, pickup<->delivery roles exchanged; per unassigned entry dropped / duplicated, unknown id prepended / appended; per tour statistic distance / duration shifted beyond R's rounding allowance (overall kept equal to the sum), overall distance / duration shifted, unknown vehicle id, vehicle shift of every other tour reused, limit in P lowered to one under the used tourSize / distance / duration, capacity in P lowered to one under the peak load, break activity moved before / behind its window or to another location, two jobs of different tours put into one group in P. A mutant is asserted only when R, run on the mutant, reports a finding of the intended rule family (else counted not_certified); then check() must be Err (a panic is a failure of its own). NEGATIVE checker_relations (R does not model relations; certified by construction over jobs with one task, one place, <=1 window, as E1203 requires): a relation added to P that S visibly contradicts - job locked (any / sequence / strict) to another used vehicle, to an idle vehicle or to another shift of its vehicle; sequence / strict with two served jobs in reversed order; strict over two jobs with something served in between. Not asserted, only observed (statement silent, code says ignored): cost, time split, typeId, distances when all stop distances are 0 (documented hre workaround). Open known findings are excluded by exact signature (mutation name incl. site class, or normalised error text + triggering circumstance) and counted. Non-trivial: certified mutant at a site other than the first tour / first two stops (distinct by case x mutation x site), or an accepted R-clean solver output with a reload, a break or a multi-task job (distinct by case).",
+        assumptions: vec![
+            "reference model R (harness/src/engines/refmodel.rs) is a faithful reading of the documented pragmatic semantics; a breach R cannot see (e.g. load of the closing arrival stop, first-stop arrival without an explicit departure time) is counted as not_certified, not asserted",
+            "relation semantics as documented: a relation locks its jobs to one vehicle shift (shiftIndex, default 0); sequence fixes the order but allows other jobs in between; strict forbids anything in between",
+            "a solver output whose break bookkeeping is itself inconsistent (a break violation listed more often than breaks exist, or a due time-window break neither assigned nor listed in violations) is not a valid solution: counted under pos.solver-output.invalid.*, excluded from both oracles",
+            "the solver is not reproducible across runs: the failure message carries the complete (problem, matrices, solution) document; it replays through the replay-only sub-check checker_doc",
+        ],
         props: vec![Box::new(CheckerProp { relations: false }), Box::new(CheckerProp { relations: true }), Box::new(CheckerDocProp)],
-        extra: None,
-        required_classes: vec![],
+        extra: Some(Box::new(dump_minimal)),
+        required_classes: vec![
+            "pos.solver-output.accepted", "pos.solver-output.with.reload_assigned", "pos.solver-output.with.break_assigned",
+            "pos.solver-output.with.multi_task_assigned", "pos.limit-exact.tour-size.accepted", "pos.limit-exact.max-distance.accepted",
+            "pos.limit-exact.max-duration.accepted", "pos.rel.any.accepted", "pos.rel.sequence.accepted", "pos.rel.strict.accepted", "nontrivial.mutant_far_site",
+            "nontrivial.positive_with_reload_break_or_multi_job", "mut.load.plus1.certified", "mut.load.minus1.certified", "mut.load.above-capacity.certified",
+            "mut.capacity.lowered.certified", "mut.job.unknown-id.certified", "mut.activity.duplicated.certified", "mut.job.dropped-from-tour.certified",
+            "mut.job.dropped-unassigned-entry.certified", "mut.job.copied-to-other-tour.certified", "mut.job.task-moved-to-other-tour.certified",
+            "mut.job.assigned-and-unassigned.certified", "mut.unassigned.unknown-id.certified", "mut.unassigned.duplicate.certified", "mut.arrival.later.certified",
+            "mut.arrival.earlier.certified", "mut.departure.later.certified", "mut.departure.earlier.certified", "mut.distance.more.certified",
+            "mut.distance.less.certified", "mut.stat.tour-distance.certified", "mut.stat.tour-duration.certified", "mut.stat.overall-distance.certified",
+            "mut.stat.overall-duration.certified", "mut.limit.tour-size.certified", "mut.limit.max-distance.certified", "mut.limit.max-duration.certified",
+            "mut.break.after-window.certified", "mut.break.before-window.certified", "mut.pickup-after-delivery.certified", "mut.vehicle.unknown-id.certified",
+            "mut.vehicle.shift-used-twice.certified", "mut.group.split.certified", "mut.rel.any-other-vehicle.certified", "mut.rel.sequence-other-vehicle.certified",
+            "mut.rel.sequence-reversed.certified", "mut.rel.strict-reversed.certified", "mut.rel.strict-gap.certified",
+        ],
     }
 }
